@@ -655,11 +655,12 @@ class KeychainSqlite3(Keychain):
         name = Name.to_bytes(name)
         id_name = formal_name[:-2]
         key = self[id_name][formal_name]
+        # Private key first: if a later step fails the Key is still listed and del_key can be repeated
+        self._signer_cache = {}
+        self.tpm.delete_key(formal_name)
         with self.conn:
             self.conn.execute('DELETE FROM certificates WHERE key_id=?', (key.row_id,))
             self.conn.execute('DELETE FROM keys WHERE key_name=?', (name,))
-        self.tpm.delete_key(formal_name)
-        self._signer_cache = {}
 
     def del_cert(self, name: NonStrictName):
         """
